@@ -31,6 +31,7 @@ type LoopContract struct {
 	Invariants []*Clause
 	Decreases  *Clause
 	Ensures    []*Clause // "loop N ensures E": holds at the end of every iteration (at each back edge)
+	Ordered    *Clause   // "loop N ordered": must not be a range over a map
 }
 
 type Guarded struct {
@@ -240,6 +241,17 @@ func (cs *Contracts) loadFile(pkgPath, file string) error {
 				}
 			case "loop":
 				// loop N invariant E | loop N decreases E
+				if dm := regexp.MustCompile(`^(\d+)\s+ordered\s*$`).FindStringSubmatch(rest); dm != nil {
+					// loop N ordered: the loop emits output in iteration order, so it must not range over a map
+					n, _ := strconv.Atoi(dm[1])
+					lc := fc.Loops[n]
+					if lc == nil {
+						lc = &LoopContract{}
+						fc.Loops[n] = lc
+					}
+					lc.Ordered = &Clause{Kind: "ordered", Text: "loop " + dm[1] + " iterates in a defined order (not over a map)", Props: props, Line: l, Loop: n}
+					continue
+				}
 				parts := strings.SplitN(rest, " ", 3)
 				if len(parts) < 3 {
 					return fmt.Errorf("%s: bad loop clause: %s", file, l)
